@@ -51,7 +51,7 @@ func init() {
 			{Name: "fault decorators around keys.ManagerInterface, styp.Signer, styp.CertificateAuthority", Kind: "stub"},
 		},
 		Plans:  c10Plans,
-		Budget: core.StdBudget(1500, 110*time.Second, 150000, 25*time.Minute),
+		Budget: core.StdBudget(1500, 110*time.Second, 150000, 9*time.Minute),
 		Body:   runC10,
 	})
 }
